@@ -21,17 +21,32 @@ def Num.json : Num → Json
   | .int n => .int n
   | .float x => .float x
 
+/-- `low != float('-inf')` -/
+def Num.isNegInf : Num → Bool
+  | .float .negInf => true
+  | _ => false
+
+/-- `high != float('inf')` -/
+def Num.isPosInf : Num → Bool
+  | .float .posInf => true
+  | _ => false
+
 /-- src: serializer.py JSONSerialization.declare_numeric_bounds
-(the keys are fresh, so `schema[key] = …` appends) -/
+(the keys are fresh, so `schema[key] = …` appends; a lower bound `-inf` and an upper bound
+`+inf` are skipped) -/
 def declareNumericBounds (schema : List (String × Json)) (b : Bounds) : List (String × Json) :=
   match b.range with
   | none => schema
   | some (lo, hi) =>
     let s1 := match lo with
-      | some l => schema ++ [(if b.incLo then "minimum" else "exclusiveMinimum", l.json)]
+      | some l =>
+        if l.isNegInf then schema
+        else schema ++ [(if b.incLo then "minimum" else "exclusiveMinimum", l.json)]
       | none => schema
     match hi with
-    | some h => s1 ++ [(if b.incHi then "maximum" else "exclusiveMaximum", h.json)]
+    | some h =>
+      if h.isPosInf then s1
+      else s1 ++ [(if b.incHi then "maximum" else "exclusiveMaximum", h.json)]
     | none => s1
 
 /-- src: serializer.py JSONSerialization.number_schema / integer_schema -/
@@ -79,6 +94,7 @@ def literalTypes : List PyVal → Option (List String)
 def selectorSchema (objs : List PyVal) : Except Err Json :=
   match literalTypes objs with
   | none => .ok (.obj [])
+  | some [] => .ok (.obj [])                 -- `if not allowed_types: return {}`
   | some ts => match dumpsL objs with
     | .error _ => .error .unsupported
     | .ok enum => .ok (.obj [("anyOf", .arr (ts.map typeObj)), ("enum", .arr enum)])
@@ -123,11 +139,15 @@ def Param.baseSchema (p : Param) : Except Err Json :=
   | .listSelector objs => listSelectorSchema objs
   | .classSelector s => .ok s.schema
 
+/-- `p.allow_None or p.default is None` -/
+def Param.schemaNullable (p : Param) : Bool :=
+  p.effAllowNone || (match p.effDefault with | .ok .none => true | _ => false)
+
 /-- src: serializer.py JSONSerialization.param_schema / parameterized.py Parameter.schema -/
 def Param.schema (p : Param) : Except Err Json :=
   match p.baseSchema with
   | .error e => .error e
-  | .ok s => .ok (if p.effAllowNone then nullable s else s)
+  | .ok s => .ok (if p.schemaNullable then nullable s else s)
 
 /-- `d[key] = v` on a schema that is a dict -/
 def addField (s : Json) (k : String) (v : Json) : Json :=
